@@ -15,7 +15,7 @@ P = {
          "Every decoding entry point is executed on valid bodies, all their prefixes, field substitutions, TLV length sweeps and random bodies in four presentations (cap==len, zero tail, 0xA5 tail, reused receiver); a panic, a tail-dependent outcome or a history-dependent outcome is a violation. Added later: bodies beyond 65535 bytes, and a decode loop that lives for 11.5 s of real time under the same watchdog (DESIGN 9.22, 9.25).",
          "Go bounds checks are the memory-safety oracle (no unsafe/cgo in the repository); the registry of entry points is compared with the Parse methods present in the tree.", "4/C03"),
  "C04": ("exploration", "stream-parser monitor through a build-tag hook, reference splitter as oracle, exhaustive 1-/2-cuts",
-         "Feeds frame streams through the real packageParse (reused 1023-byte buffer, as connection.reader does) under byte-wise, per-frame, maximal, all 1-cut/2-cut and random partitions; after every feed the extracted messages must equal the frames whose closing delimiter has arrived.",
+         "Feeds frame streams through the real packageParse (reused 1023-byte buffer, as connection.reader does) under byte-wise, per-frame, maximal, all 1-cut/2-cut and random partitions; after every feed the extracted messages must equal the frames whose closing delimiter has arrived. A socket part sends the same streams under nine write partitions to a live server, one of them with 5.6 s of real time inside a frame (DESIGN 9.28).",
          "Hook service.VerifParser mirrors connection.reader's buffer discipline; a socket variant exercises the real reader without control of read boundaries.", "4/C04"),
  "C05": ("exploration", "reassembly state-machine monitor (hook + socket), permutation enumeration",
          "Enumerates totals, every arrival order, duplicates, invalid package numbers, interleaved transfers and segmentations through the real parser, checking exactly-one complete delivery with the right body at the right moment against a reference reassembly machine; sampled orders also over loopback TCP. Added later: slow transfers replacing abandoned ones and wide transfers (512-1100 packets) that pause with most packets missing, in virtual time (DESIGN 9.25).",
@@ -33,7 +33,7 @@ P = {
          "Every delivered message is snapshotted at delivery and re-read after later reads and after close; over sockets, equal-length pipelined frames with unique tokens check that replies and reassembled data belong to their own request while the writer is delayed. Added later: connections that carry several fixed headers (phones, 2013/2019), each reply addressed like the message it answers (DESIGN 9.25). Connections that end with transfers unfinished whose packets the join / not-supported / unfiltered read callbacks still hold (DESIGN 9.27).",
          "Hook reproduces the reader's buffer reuse; schedules limited to those produced by delay injection.", "4/C09"),
  "C10": ("fault_enumeration", "process-liveness + canary-session monitor with fsynced hostile-input journal",
-         "Child processes run both servers (default and README-style parsing handlers) while hostile connections (random, mutated, adversarial headers/bodies for every ID, lifecycle faults at every stage) are enumerated; canary sessions and post-attack probes must keep being served; a dead child is attributed via the journal and panic stack. Added later: parts for descriptor exhaustion, exhaustive short sub-package histories, and clients that stop reading (heartbeat flood, re-request flood, attachment server) with canary-progress as the witness that a timeout is not a slow machine (DESIGN 9.21, 9.22). Hostile frames with a broken escape behind well-formed escape pairs (DESIGN 9.27).",
+         "Child processes run both servers (default and README-style parsing handlers) while hostile connections (random, mutated, adversarial headers/bodies for every ID, lifecycle faults at every stage) are enumerated; canary sessions and post-attack probes must keep being served; a dead child is attributed via the journal and panic stack. Added later: parts for descriptor exhaustion, exhaustive short sub-package histories, and clients that stop reading (heartbeat flood, re-request flood, attachment server) with canary-progress as the witness that a timeout is not a slow machine (DESIGN 9.21, 9.22). Hostile frames with a broken escape behind well-formed escape pairs (DESIGN 9.27). Attachment canaries preceded by an impostor that announces the same files, flagged as re-uploads, with the completion content of the canary's connection checked (DESIGN 9.28).",
          "Faults are those a TCP client can cause; resource exhaustion is not claimed.", "4/C10"),
  "C11": ("exploration", "porcupine linearizability check of recorded join/leave/send histories against a sequential registry model",
          "Concurrent connect / duplicate / disconnect / reconnect / SendActiveMessage histories are recorded at the client boundary under delay injection and the race detector and checked per key against the sequential registry specification, plus callback-count side oracles. Added later: twin servers in one process, the all-zero phone, fragment-first connections, and a part that follows a stalled terminal to its leave callback, histories on a server that came up after failed Run() attempts (DESIGN 9.19-9.25). A part in which a duplicate of an online key arrives while the session manager is stalled by a terminal that stopped reading (DESIGN 9.27).",
@@ -54,7 +54,7 @@ P = {
          "StatisticalMissSegments and the 0x9212 reply are compared with an independent interval complement for every received-byte subset of files up to 12 bytes and random large cases; resend-then-complete is driven through the server.",
          "Reference range model internal/ref.", "4/C16"),
  "C17": ("exploration", "reference-model differential monitor (R-1078) with exhaustive truncation",
-         "Streams of reference-built RTP packets (all data types, marks, payload lengths around 950 and beyond) are decoded step by step and compared with the reference layout; every cut length of every packet must be reported too short, markerless data unqualified.",
+         "Streams of reference-built RTP packets (all data types, marks, payload lengths around 950 and beyond) are decoded step by step and compared with the reference layout; every cut length of every packet must be reported too short, markerless data unqualified. Every payload length is also sent with the heads media payloads start with (vendor audio heads, start codes, the marker) (DESIGN 9.28).",
          "Trusted base: internal/ref JT1078 model.", "4/C17"),
  "C18": ("exploration", "Go race detector over the C06/C09/C11/C12/C13 scenario suites with delay injection",
          "The scenario suites run in race-instrumented children with seeded delay injection, repeated with different seeds; every DATA RACE block is parsed from the log and deduplicated by innermost repository functions.",
